@@ -114,11 +114,16 @@ def owner_layout(chk, ex, cls, found):
     if not owners:
         return None
     first = None
+    if not hasattr(chk, "layouts_all"):
+        chk.layouts_all = {}
+    chk.layouts_all[cls] = []
     for ci, (oref, ost) in enumerate(owners):
         # every successful path of the constructor (library calls such as np.require fork: they may
         # hand back their argument or a copy of it)
         r = _owner_layout_path(chk, ex, cls, name if ci == 0 else "%s[constructor path %d]" % (name, ci), a, oref, ost, found)
         first = first if first is not None else r
+        if r is not None:
+            chk.layouts_all[cls].append(r)
     if not hasattr(chk, "layouts"):
         chk.layouts = {}
     chk.layouts[cls] = first
@@ -264,9 +269,9 @@ def _attached_path(chk, ex, cls, name, o, eff, pref, of, ost, oref, shm, size, f
 
 def _attach_helper(chk, ex, cls, name, of, ost, size, found):
     # helpers.attach_shared_memory rebuilds the sketch from the owner's args and attaches it
-    if ("attach-helper", cls) in chk.done:
+    if ("attach-helper", name) in chk.done:
         return
-    chk.done.add(("attach-helper", cls))
+    chk.done.add(("attach-helper", name))
     if True:
         kind = {"HyperLogLog": "hll", "HeavyHitters": "hh"}.get(cls, "cms")
         fn = ex.func("helpers", "attach_shared_memory")
@@ -394,8 +399,9 @@ def attach_helper_part(chk, ex, found, classes=None):
             lay = owner_layout(chk, ex, cls, found)
             if lay is None:
                 continue
-            oref, ost, of, shm, size = lay
-            _attach_helper(chk, ex, cls, cls, of, ost, size, found)
+            # every successful outcome of the shared constructor (scalar conversions in it fork)
+            for pi, (oref, ost, of, shm, size) in enumerate(getattr(chk, "layouts_all", {}).get(cls) or [lay]):
+                _attach_helper(chk, ex, cls, cls if pi == 0 else "%s[constructor path %d]" % (cls, pi), of, ost, size, found)
         except X.Unsupported as e:
             chk.undecided.append((cls + " attach_shared_memory", "unsupported construct in glue: %s" % e))
 
